@@ -560,6 +560,25 @@ func (h *c06Hist) runGen(p *c06Peer, midStyle int) { //nolint:cyclop
 		ExtPermute: r.Bool(), NoBundle: r.Chance(0.3), RejectedOK: r.Chance(0.4), MediaLevelSec: r.Chance(0.4),
 	}
 	g := genRandomOffer(r, o)
+	if r.Chance(0.2) && len(g.Media) >= 2 {
+		// directed class: a section without a local transceiver (application / unknown kind) offered with port 0
+		// (rejected, or bundle-only as browsers send it under max-bundle) that holds the greatest numeric mid
+		last := g.Media[len(g.Media)-1]
+		if last.Kind == "audio" || last.Kind == "video" {
+			last.Kind, last.Proto, last.SCTPPort, last.Dir, last.Codecs, last.Exts, last.Msid, last.SSRCs = "application", "UDP/DTLS/SCTP", 5000, "", nil, nil, "", nil
+			for _, m := range g.Media[:len(g.Media)-1] {
+				if m.Kind == "application" {
+					last.Kind, last.Proto = "text", "UDP/TLS/RTP/SAVPF"
+					last.Codecs = []genCodec{{98, "t140", 1000, 0, "", nil}}
+				}
+			}
+		}
+		last.Port = 0
+		if r.Bool() {
+			last.Extra = append(last.Extra, "a=bundle-only")
+		}
+		h.run.Count("gen_offers_last_section_port0_without_transceiver", 1)
+	}
 	planB := false
 	if p.sem != SDPSemanticsUnifiedPlan && r.Chance(0.6) {
 		c06PlanBify(r, g)
